@@ -143,6 +143,8 @@ namespace embedded_pairing::wkdibe {
 
             h = hsig + 1;
         } else {
+            /* As setup does when signatures are not supported. */
+            this->hsig.copy(G1::zero);
             h = reinterpret_cast<const Encoding<G1Affine, compressed>*>(encoded + 1);
         }
 
@@ -342,6 +344,8 @@ namespace embedded_pairing::wkdibe {
 
             b = reinterpret_cast<const FreeSlotMarshalled<compressed>*>(bsig + 1);
         } else {
+            /* As keygen does when signatures are not supported. */
+            this->bsig.copy(G1::zero);
             b = reinterpret_cast<const FreeSlotMarshalled<compressed>*>(encoded + 1);
         }
 
